@@ -462,14 +462,14 @@ func (s *Script) ScriptType() string {
 	if s.IsP2PKH() {
 		return ScriptTypePubKeyHash
 	}
+	if s.IsData() {
+		return ScriptTypeNullData
+	}
 	if s.IsP2PK() {
 		return ScriptTypePubKey
 	}
 	if s.IsMultiSigOut() {
 		return ScriptTypeMultiSig
-	}
-	if s.IsData() {
-		return ScriptTypeNullData
 	}
 	if s.IsP2PKHInscription() {
 		return ScriptTypePubKeyHashInscription
